@@ -160,7 +160,7 @@ static CASE_CPU_MILLIS: std::sync::atomic::AtomicI64 = std::sync::atomic::Atomic
 pub fn set_case_cpu_millis(ms: i64) {
     CASE_CPU_MILLIS.store(ms, std::sync::atomic::Ordering::Relaxed);
 }
-const WORKER_AS_BYTES: u64 = 384 << 20;
+const WORKER_AS_BYTES: u64 = 160 << 20;
 
 impl<'a, C: serde::Serialize + serde::de::DeserializeOwned> Worker<'a, C> {
     pub fn new(eval: &'a dyn Fn(&C, i32) -> Outcome, on_death: &'a dyn Fn(&C, &ChildDeath) -> Outcome) -> Self {
@@ -258,9 +258,9 @@ impl<'a, C: serde::Serialize + serde::de::DeserializeOwned> Worker<'a, C> {
             Ok(o) => o,
             Err(d) if d.exit == "signal 27" => {
                 // CPU allowance exceeded: could be machine load right after a fork (copy-on-write
-                // faults are charged to the worker). Decide with a 40x allowance in a fresh worker so
+                // faults are charged to the worker). Decide with a 20x allowance in a fresh worker so
                 // that the verdict does not depend on timing.
-                match self.eval_once(case, ms * 40) {
+                match self.eval_once(case, ms * 20) {
                     Ok(o) => o,
                     Err(d) => {
                         self.deaths += 1;
@@ -379,11 +379,7 @@ pub fn campaign<S, C>(
             trees.push(strategy.new_tree(&mut runner).expect("strategy"));
         }
         let cases: Vec<C> = trees.iter().map(|t| realize(&t.current())).collect();
-        let outs: Vec<Outcome> = if std::env::var("XCDR_GENONLY").is_ok() {
-            cases.iter().map(|_| Outcome::default()).collect()
-        } else {
-            cases.iter().map(|c| worker.borrow_mut().eval(c)).collect()
-        };
+        let outs: Vec<Outcome> = cases.iter().map(|c| worker.borrow_mut().eval(c)).collect();
         for (idx, o) in outs.into_iter().enumerate() {
             let js = serde_json::to_value(&cases[idx]).unwrap();
             let key = vcore::hash_json(&js);
@@ -487,6 +483,7 @@ pub fn replay_case<C: serde::Serialize + serde::de::DeserializeOwned>(
 pub struct ChildDeath {
     /// last progress marker the child wrote before dying
     pub marker: String,
+    #[allow(dead_code)]
     pub refused_alloc: Option<usize>,
     pub exit: String,
 }
